@@ -306,7 +306,9 @@ def judgeLine (s0 : JState) (line : String) : JState :=
               let s := useLive s "environment" line (jOid env)
               -- a destructed object must not have been linked into the room
               let s := if isDead s a && (jOid env).isSome then s.flag s!"destructed-moved o{a}: {line}" else s
-              if env == "?" then s else { s with envOf := (a, jOid env) :: s.envOf }
+              -- `?`: the executing object was destructed and could not name the room; relocations announced while
+              -- the string move was running are older than the move itself: the environment is unknown again
+              if env == "?" then { s with envOf := (a, some unkEnv) :: s.envOf } else { s with envOf := (a, jOid env) :: s.envOf }
             else s.flag s!"frame-mismatch {line}"
           | _ => s.flag s!"frame-mismatch {line}"
         else s
